@@ -155,8 +155,10 @@ def mixed(n: int) -> int:
 	return len(xs) + len(ys)
 '''
 MAIN_V = {
-    'v0': 'from c04pool.m1 import make1\n\ndef run(n: int) -> int:\n\tx = make1(n)\n\treturn x.get()\n',
-    'v1': 'from c04pool.m0x import make, wide\n\ndef run(n: str) -> str:\n\tx = make(n)\n\tw = wide(1, \'a\', 1.5, True, 2, \'b\', 2.5, False, 3, \'c\', 4)\n\treturn x.get()\n',
+    # v0 and v1 have the same shape: a class, an operator expression and a constructor call sit on the same tree paths in
+    # both, with other names and other types (what an interactive session sees when the next snippet is submitted)
+    'v0': 'from c04pool.m1 import make1\n\nclass Acc:\n\tdef twice(self, n: int) -> int:\n\t\treturn n + n\n\ndef run(n: int) -> int:\n\tx = make1(n)\n\tt = n + n\n\ta = Acc()\n\tu = a.twice(n)\n\treturn x.get()\n',
+    'v1': 'from c04pool.m0x import make, wide\n\nclass Ledger:\n\tdef twice(self, n: str) -> str:\n\t\treturn n + n\n\ndef run(n: str) -> str:\n\tx = make(n)\n\tt = n + n\n\ta = Ledger()\n\tu = a.twice(n)\n\tw = wide(1, \'a\', 1.5, True, 2, \'b\', 2.5, False, 3, \'c\', 4)\n\treturn x.get()\n',
     'bad': 'def run(n: int) -> int:\n\treturn (n +\n',
     # parses, fails while its symbols are collected (an annotation names an unknown type)
     'badtype': 'class Early:\n\tv: int\n\n\tdef __init__(self) -> None:\n\t\tself.v = 1\n\ndef run(n: Zz_unknown) -> int:\n\treturn 1\n',
